@@ -431,3 +431,47 @@ func TestC15_Transient(t *testing.T) {
 		rec.Case(true, map[string]any{"transient": which, "fault": fault, "changed_after_attempt": k, "then": then, "config": cfg, "attempts": out.Attempts, "success_at": successAt}, "transient", label, "then:"+then)
 	})
 }
+
+// TestC15_LongBudget: retry budgets far beyond the handful of attempts of the default
+// policy, with base delays from nanoseconds to hours under a small cap - the wait schedule
+// is computed, not slept through, for dozens of steps.
+func TestC15_LongBudget(t *testing.T) {
+	rec := stat.For("C15")
+	rec.Rule("long budgets: a main file that stays malformed, MaxAttempts in [20,200], base delay from 1 ns to 1000 h, cap in {0, 1us, 50us, 200us}, factor in {1, 1.5, 2, 3, 10, 1e6}. Oracle: exactly MaxAttempts attempts, a non-empty fallback and no error; every wait within [0, cap] and never below the one before it.")
+	rapid.Check(t, func(t *rapid.T) {
+		cfg := recovery.RetryConfig{
+			MaxAttempts:   rapid.OneOf(rapid.SampledFrom([]int{37, 38, 39, 40, 41, 63, 64, 65, 66, 100, 200}), rapid.IntRange(20, 120)).Draw(t, "attempts"),
+			BaseDelay:     rapid.SampledFrom([]time.Duration{1, time.Microsecond, 10 * time.Millisecond, 100 * time.Millisecond, time.Second, time.Hour, 1000 * time.Hour}).Draw(t, "base"),
+			MaxDelay:      rapid.SampledFrom([]time.Duration{0, time.Microsecond, 50 * time.Microsecond, 200 * time.Microsecond}).Draw(t, "cap"),
+			BackoffFactor: rapid.SampledFrom([]float64{1, 1.5, 2, 2, 3, 10, 1e6}).Draw(t, "factor"),
+		}
+		dir := mkdirWork("c15l-")
+		defer os.RemoveAll(dir)
+		mp := c15Materialise(dir, "commands.yml", rapid.SampledFrom([]string{"malformed", "wrong-shape", "binary"}).Draw(t, "fault"), c15MainCmds)
+		attempts := 0
+		var waits []time.Duration
+		recovery.VerifSetObserver(&recovery.VerifObserver{
+			Attempt: func(n int, err error) { attempts++ },
+			Delay:   func(n int, d time.Duration) { waits = append(waits, d) },
+		})
+		saved := os.Stdout
+		os.Stdout = devNull
+		db, err := recovery.NewDatabaseRecovery(cfg).LoadDatabaseWithFallback(mp, filepath.Join(dir, "personal.yml"))
+		os.Stdout = saved
+		recovery.VerifSetObserver(nil)
+		if err != nil || db == nil || len(db.Commands) == 0 {
+			t.Fatalf("loading ended with err=%v and no usable fallback (config %+v)", err, cfg)
+		}
+		if attempts != cfg.MaxAttempts {
+			t.Fatalf("%d attempts on a file that stays malformed, configured %d (config %+v)", attempts, cfg.MaxAttempts, cfg)
+		}
+		prev := time.Duration(0)
+		for i, d := range waits {
+			if d < 0 || d > cfg.MaxDelay || d < prev {
+				t.Fatalf("wait %d of %d is %v after %v (cap %v): waits never decrease and never exceed the cap; config %+v\n waits=%v", i+1, len(waits), d, prev, cfg.MaxDelay, cfg, waits)
+			}
+			prev = d
+		}
+		rec.Case(true, map[string]any{"long_budget": true, "attempts": attempts, "base": cfg.BaseDelay.String(), "cap": cfg.MaxDelay.String(), "factor": cfg.BackoffFactor, "waits": len(waits)}, "long-budget")
+	})
+}
